@@ -1,4 +1,5 @@
 """C10 — identifiers received from a peer are re-emitted byte-for-byte."""
+import os
 from ..e1 import Harness
 from . import c01
 
@@ -7,7 +8,7 @@ FEATURE = "c10"
 ENGINE = "E1 kani-cbmc"
 QUICK_MAX_S = 200
 FUNCTIONS = ["decoder.rs parse_local_ext (capture of the raw bytes)", "encoder.rs encode_pid_impl / encode_port_impl / encode_reference_impl (replay)",
-             "derived Clone of ExternalPid/Port/Reference (Bytes), BorrowedTerm::from(&OwnedTerm) and to_owned", "logical ==/hash/cmp: see C11/C12 shapes pidl/portl/refl"]
+             "derived Clone of ExternalPid/Port/Reference (Bytes), BorrowedTerm::from(&OwnedTerm) and to_owned", "types.rs PartialEq/Eq/Hash/PartialOrd/Ord of ExternalPid / ExternalPort / ExternalReference (plain vs node-local form)"]
 ASSUMPTIONS = c01.ASSUMPTIONS + ["the round trip is decided as the chain D (decode keeps bytes) + E (encode replays bytes), not in one query"]
 OUTSIDE = ["identifiers nested deeper than a 1-tuple, map keys/values, list tails, fun environments", "sequences of more than one conversion"]
 IDS = [("pid", "mk_pid()", "mk_pid_local()"), ("port", "mk_port()", "mk_port_local()"), ("ref", "mk_ref::<1>()", "mk_ref_local()")]
@@ -36,6 +37,37 @@ def generate(tier, seed):
             n = "c10_encode_replays__%s_%s" % (nm, cn)
             src.append(fn(n, "    let (t, r) = %s;\n    vk::leak(r);\n    encode_replays(t, %d);" % (local, c)))
             hs.append(Harness(n, "encode of a node-local %s (%s) emits LOCAL_EXT followed by exactly the preserved bytes" % (nm, cn),
-                              unwind=6, unwindset=c01.UWS + [(r"^c10::", 40)], cap_s=900, cuts=c01.CUTS_NOZ, mem_gb=12, typed_heap=(c == 3),
+                              unwind=6, unwindset=c01.UWS + [(r"^c10::", 40)], cap_s=900, cuts=c01.CUTS_NOZ, mem_gb=int(os.environ.get('VERIF_X_MEM', 12)), typed_heap=(c == 3 or bool(os.environ.get('VERIF_X_TH'))),
                               recursion=[(r"encode_term_impl|to_owned|BorrowedTerm<'_> as std::convert::From|OwnedTerm as std::clone::Clone", 2 if c == 3 else 1)]))
+    for nm, plain, local in IDS:
+        for c, cn in ((1, "clone"), (2, "borrowed_roundtrip")):
+            n = "c10_conversion_preserves__%s_%s" % (nm, cn)
+            src.append(fn(n, "    let (t, r) = %s;\n    vk::leak(r);\n    conversion_preserves(t, %d);" % (local, c)))
+            hs.append(Harness(n, "%s of a node-local %s keeps the preserved LOCAL_EXT bytes on the identifier (field level, no encoder in the query)" % (cn, nm),
+                              unwind=12, unwindset=c01.UWS + [(r"^c10::", 40), (r"^memcmp$", 18)], cap_s=900, cuts=c01.CUTS_NOZ, mem_gb=12,
+                              recursion=[(r"to_owned|BorrowedTerm<'_> as std::convert::From|OwnedTerm as std::clone::Clone|OwnedTerm as std::cmp::PartialEq", 1)]))
+    for nm in ("pid", "port", "ref"):
+        for form, fn_ in ((0, "plain_vs_local"), (1, "local_vs_local")):
+            n = "c10_ident_laws__%s_%s" % (nm, fn_)
+            src.append(fn(n, "    %s_laws(%d);" % (nm, form)))
+            hs.append(Harness(n, "External%s: ==, cmp, partial_cmp and the hash transcript depend on the logical fields only (%s, all fields and "
+                                 "both 8-byte hashes symbolic)" % (nm.capitalize(), fn_.replace("_", " ")),
+                              unwind=10, unwindset=[(r"^terms::Rec::|^<terms::Rec as ", 50), (r"^terms::", 12), (r"^memcmp$", 18),
+                                                    (r"try_rfold|try_fold|iter_compare", 12)],
+                              cap_s=600, mem_gb=10))
     return "\n".join(src), hs
+
+
+def extra_checks(tier, seed):
+    from . import c10_e2
+    out = []
+    c10_e2.run(out)
+    return out
+
+
+def replay_case(case):
+    from . import c10_e2
+    e = case.get("e2") or {}
+    if not e:
+        return None
+    return c10_e2.replay(e["conv"], e["ident"])
